@@ -129,13 +129,17 @@ VIOLATION_BUDGET = {"left": 4}
 def discharge(hyp, goal, timeout_s=10.0, model_vars=None, use_cvc5=True, seed=0):
     """Returns dict(status=discharged|violated|unknown|skipped, backend, time_s, model)."""
     t0 = time.time()
+    timeout_s = timeout_s * float(os.environ.get("VERIF_TIMEOUT_SCALE", "1"))
     if VIOLATION_BUDGET["left"] <= 0:
         return dict(status="skipped", backend="", model=None, time_s=0.0)
     s = z3.Solver()
     s.set("timeout", int(timeout_s * 1000))
     s.add(hyp)
     s.add(z3.Not(goal))
-    r = s.check()
+    try:
+        r = s.check()
+    except z3.Z3Exception:
+        r = z3.unknown
     res = {"backend": "z3-" + z3.get_version_string(), "model": None}
     if r == z3.unsat:
         res["status"] = "discharged"
